@@ -515,6 +515,18 @@ pub fn run(opts: &Opts, out: &mut Emitter, c04: bool) {
             let q = Q { name: "src".into(), addr: if r.chance(5, 6) { Some("A") } else { None }, min: Some(min), refs: vec![], many: r.chance(4, 5), collateral: false };
             emit(out, "two-token-stress", &st, &[q], false);
         }
+        // one party's wallet, around and beyond the window: every UTxO at the queried address, so that the strict
+        // matches alone exceed the 50 the selector looks at
+        for k in 0..(opts.n / 4).max(14) {
+            let size = [49usize, 50, 51, 52, 64, 100, 300][k % 7];
+            let st: Vec<U> = (0..size)
+                .map(|i| U { txid: (i % 200 + 1) as u8, index: (i / 200) as u32, addr: "A",
+                             assets: vec![("L", r.range(1, 5_000_000) as i128), ("X", if r.chance(1, 2) { r.range(1, 9) as i128 } else { 0 }), ("Y", 0)] })
+                .collect();
+            let coll = r.chance(1, 7);
+            let q = random_query(&mut r, "src", &st, coll);
+            emit(out, "wallet-over-window", &st, &[q], false);
+        }
         // random: up to 50 UTxOs (and 51..80 to cross the window), large amounts
         for k in 0..opts.n {
             let size = if k % 5 == 4 { 51 + r.below(30) as usize } else { 1 + r.below(50) as usize };
